@@ -244,12 +244,12 @@ def check(ctx):
         raise AnalysisError("State transition methods missing")
 
     def shape(f, counter):
-        return [norm(s).replace(counter, "<counter>") for s in f.node.body]
+        return [norm(s).replace(counter, "<counter>") for s in f.node.body if not (isinstance(s, ast.Expr) and isinstance(s.value, ast.Constant))]
     ok = shape(comp, "completed") == shape(fail, "failed")
     ctx.ob("C20.R5", "State.increment_completed~increment_failed", ok, loc(comp), "equal as ASTs modulo the incremented counter" if ok else
            "completed/failed transitions differ beyond the counter (running counts / elapsed attribution drift)")
     for f in (comp, fail, run):
-        first = f.node.body[0]
+        first = [s_ for s_ in f.node.body if not (isinstance(s_, ast.Expr) and isinstance(s_.value, ast.Constant))][0]
         ok = isinstance(first, ast.Expr) and norm(first.value) == "self.update_weighted_elapsed()"
         ctx.ob("C20.R5", f"{f.short}/elapsed-first", ok, loc(f), "elapsed time is attributed before any counter changes" if ok else
                "counters change before elapsed time is attributed")
@@ -266,21 +266,37 @@ def check(ctx):
            "the reference time advances on every path (idle periods are not attributed to later calls)" if ok else
            "on some path the reference time is not advanced: idle time is later charged to whatever scope runs next",
            "", "" if ok else gu.fmt_path(gu.path(gu.entry, {gu.exit}, avoid=sn)))
-    tb = [b for b in uw.bindings.get("t", []) if b[0] == "assign"]
-    ok = len(tb) == 1 and norm(tb[0][1]) == "time.time()" and all(norm(s_.value) == "t" for s_ in sets)
+    tnames = [nm for nm, bs in uw.bindings.items() for k, e, p_ in bs if k == "assign" and e is not None and norm(e) == "time.time()"]
+    ok = len(tnames) == 1 and all(norm(s_.value) == tnames[0] for s_ in sets)
     ctx.ob("C20.R5", f"{uw.short}/one-clock-reading", ok, loc(uw), "one clock reading per update, stored as the new reference" if ok else
            "elapsed update does not store the clock reading it used")
+    from ..astq import real_body
+
+    def local_of(f):
+        """The local holding the scope state: first name assigned from a subscript of the section/scope mapping."""
+        for s_ in real_body(f.node):
+            if isinstance(s_, ast.Assign) and isinstance(s_.targets[0], ast.Name) and isinstance(s_.value, ast.Subscript):
+                return s_.targets[0].id
+        raise AnalysisError(f"{f.qualname}: scope-state local not found")
+
+    def cbody(f):
+        return [norm(s_) for s_ in real_body(f.node)]
+
+    def cst(f, *stmts):
+        v = local_of(f)
+        import re
+        return [norm(ast.parse(re.sub(r"\bscope_state\b", v, t_)).body[0]) for t_ in stmts]
     for f, sign in ((run, "+"), (comp, "-"), (fail, "-")):
-        txt = [norm(s) for s in f.node.body]
-        ok = f"scope_state.running {sign}= 1" in txt and f"self.running_count {sign}= 1" in txt
+        txt = cbody(f)
+        ok = cst(f, f"scope_state.running {sign}= 1")[0] in txt and f"self.running_count {sign}= 1" in txt
         ctx.ob("C20.R5", f"{f.short}/running-counts-together", ok, loc(f), f"scope running and global running move together ({sign}1/{sign}1)" if ok else
                "scope running count and global running count do not move together")
-    ok = "self._running_scope_states.add(scope_state)" in [norm(s) for s in run.node.body]
+    ok = cst(run, "self._running_scope_states.add(scope_state)")[0] in cbody(run)
     ctx.ob("C20.R5", f"{run.short}/joins-running-set", ok, loc(run), "scope state enters the running set")
     for f in (comp, fail):
-        ifs = [s for s in f.node.body if isinstance(s, ast.If) and norm(s.test) == "not scope_state.running"]
-        ok = len(ifs) == 1 and [norm(s) for s in ifs[0].body] == ["self._running_scope_states.remove(scope_state)"] and \
-            f.node.body.index(ifs[0]) > [norm(s) for s in f.node.body].index("scope_state.running -= 1")
+        want_if = cst(f, "if not scope_state.running:\n    self._running_scope_states.remove(scope_state)")[0]
+        cb_ = cbody(f)
+        ok = want_if in cb_ and cst(f, "scope_state.running -= 1")[0] in cb_ and cb_.index(want_if) > cb_.index(cst(f, "scope_state.running -= 1")[0])
         ctx.ob("C20.R5", f"{f.short}/leaves-running-set", ok, loc(f), "leaves the running set exactly when its running count reaches 0" if ok else
                "running-set membership does not follow running > 0")
 
